@@ -835,6 +835,8 @@ _PAYLOADS = ['+1 x1 >= 1', 'p cnf 1 1', '* #variable= 9 #constraint= 9', '1 0', 
 
 
 def run_shield(case):
+    if 'long' in case:
+        return run_long(case)
     F = build_hand(case)
     labels = []
     texts = [str(k) + str(v) for k, v in case.get('header', [])] + [str(l) for l in F.all_variable_labels()] + \
@@ -918,6 +920,241 @@ def strat_shield(draw):
     return case
 
 
+
+# ---------------------------------------------------------------------------
+# LONG AND MULTI-LINE TEXT in everything a rendering quotes (cases of comment_shield with a 'long' entry)
+#
+# 'long': [[position, length, shape, salt], ...] with position in
+#   hv (header value)  hk (header key)  desc (description)  label (name of a single variable)
+#   block (label format of a block of variables)  extra (extra_text of the LaTeX document)
+# The text itself is rebuilt from the entry by _long_text (the case stays small).
+
+_WRAP_WIDTHS = (72, 80, 132, 255, 1024, 4096)
+_LONG_LENGTHS = [100, 131, 132, 133, 200, 255, 256, 257, 500, 1023, 1024, 1025, 2000, 5000]
+_LONG_SHAPES = ['words', 'oneword', 'blank-at-wrap', 'lines', 'crlf-lines', 'blank-lines', 'tabs', 'marks-c', 'marks-star',
+                'marks-percent', 'inline-marks', 'payload']
+_LONG_POSITIONS = ['hv', 'hk', 'desc', 'label', 'block', 'extra']
+_LONG_SEPS = {
+    'words': [' '], 'oneword': [''], 'blank-at-wrap': [''], 'tabs': ['\t', '\t', ' \t'],
+    'lines': [' ', ' ', '\n'], 'crlf-lines': [' ', '\r\n', ' ', ' '], 'blank-lines': [' ', ' ', ' ', '\n\n'],
+    'marks-c': [' ', '\nc ', ' ', ' c '], 'marks-star': [' ', '\n* ', ' * ', ' ', '\n*'],
+    'marks-percent': [' ', '\n% ', ' % ', ' '], 'inline-marks': [' c ', ' * ', ' % ', ' ', ' p cnf 1 1 '],
+    'payload': [' ', '\n+1 x1 >= 1\n', ' +1 x1 >= 1 ', ' ', '\n* #variable= 9 #constraint= 9\n', ' ', '\n+2 ~x2 = 2 ;\n', ' >= 0 ; '],
+}
+
+
+def _long_text(position, length, shape, salt):
+    """A text of exactly `length` characters: words that carry the position's tag and a running number (so that no
+    text is part of another one), separated as the shape says."""
+    tag = {'hv': 'v', 'hk': 'k', 'desc': 'd', 'label': 'n', 'block': 'b', 'extra': 'e'}[position]
+    seps = _LONG_SEPS[shape]
+    if position in ('label', 'block', 'desc'):
+        seps = [sp.replace('%', '*') for sp in seps]       # (a '%' in a name or in the title would comment out LaTeX code)
+    if position == 'hk':
+        seps = [sp.replace(':', '') for sp in seps]
+    out, tot, i, x = [], 0, 0, salt * 2654435761 % (1 << 31) or 1
+    while tot < length:
+        x = (x * 1103515245 + 12345) & 0x7FFFFFFF
+        w = tag + str(i) + 'qzjxkvwy'[x % 8] * ((x >> 8) % 9)
+        sp = seps[(i + salt) % len(seps)]
+        out.append(w + sp)
+        tot += len(w) + len(sp)
+        i += 1
+    text = ''.join(out)[:length]
+    if shape == 'blank-at-wrap':
+        t = list(text)
+        for wdt in _WRAP_WIDTHS:
+            for d in (-10, -5, -2, -1, 0, 1):
+                if 0 < wdt + d < len(t) - 1:
+                    t[wdt + d] = ' '
+        text = ''.join(t)
+    if text[-1:].isspace():
+        text = text[:-1] + 'z'
+    if text[:1].isspace():
+        text = 'z' + text[1:]
+    return text
+
+
+def _squeeze(x):
+    return re.sub(r'\s+', '', str(x))
+
+
+def _build_long(case):
+    """-> (F, {position: [texts]})"""
+    case = dict(case)
+    groups = [list(g) for g in case.get('groups', [])]
+    header = [list(h) for h in case.get('header', [])]
+    texts = {p: [] for p in _LONG_POSITIONS}
+    for position, length, shape, salt in case['long']:
+        t = _long_text(position, length, shape, salt)
+        texts[position].append(t)
+        if position == 'hv':
+            header.append(['long field {}'.format(len(header)), t])
+        elif position == 'hk':
+            header.append([t, 'value of a long key'])
+        elif position == 'desc':
+            case['description'] = t
+        elif position == 'label':
+            groups.insert(salt % (len(groups) + 1), ['single', t])
+        elif position == 'block':
+            groups.insert(salt % (len(groups) + 1), ['block', [2], t + '_{{{}}}'])
+        elif position == 'extra':
+            case['extra_text'] = t + '\n'
+    case['groups'], case['header'] = groups, header
+    if case.get('tool'):
+        F = run_tool(case['tool'], case['args'], 'formula', 0)
+        for k, v in header:
+            F.header[k] = v
+        F.header[_SENTINEL[0]] = _SENTINEL[1]
+    else:
+        F = build_hand(case)
+    return F, texts, case.get('extra_text', '')
+
+
+def _comment_stream(comments):
+    """what the comment lines say, as one stream: the leading '*' of every line dropped, white space dropped"""
+    return _squeeze(''.join(c[1:] for c in comments))
+
+
+def run_long(case):
+    F, texts, extra = _build_long(case)
+    eh, ev = bool(case.get('eh', True)), bool(case.get('ev', True))
+    labels = ['long-text']
+    nontrivial = shape_labels(F, labels)
+    longest = 0
+    for position, length, shape, _salt in case['long']:
+        labels += ['long-' + position, 'long-shape-' + shape]
+        longest = max(longest, length)
+        for w in (80, 132, 255, 1024):
+            if length > w:
+                labels.append('long>{}'.format(w))
+    if case.get('tool'):
+        labels.append('long-' + case['tool'])
+    # ---- OPB without comments
+    check_opb(F.to_opb(), F, 'to_opb()')
+    # ---- OPB with header / names
+    buf = io.StringIO()
+    F.to_file(buf, fileformat='opb', export_header=eh, export_varnames=ev)
+    text = buf.getvalue()
+    what = "to_file(fileformat='opb', export_header={}, export_varnames={}) with long text {}".format(
+        eh, ev, [e[:3] for e in case['long']])
+    try:
+        res = check_opb(text, F, what, export_header=False, export_varnames=False, header_content=False)
+    except Violation as v:
+        if v.signature == 'opb-non-comment-line':
+            raise Violation("{} -- text leaks out of the comments".format(v), signature='opb-long-text-leaks')
+        raise
+    stream = _comment_stream(res.comments)
+    if not eh and not ev and res.comments:
+        raise Violation("{}: neither header nor variable names are exported, yet there is the comment {!r}".format(
+            what, res.comments[0][:80]))
+    for k, v in F.header.items():
+        if ' object at 0x' in str(v):
+            continue
+        sk, sv = _squeeze(asc(_squeeze(k))), _squeeze(asc(_squeeze(v)))
+        if eh and not (sk in stream and sv in stream):
+            raise Violation("{}: export_header=True but the header field {!r}: {!r} is not carried by the comment lines "
+                            "(white space and folding aside)".format(what, str(k)[:60], str(v)[:60]))
+        if not eh and len(sv) >= 60 and sv in stream and not any(sv in _squeeze(l) for l in F.all_variable_labels()):
+            raise Violation("{}: export_header=False but the header value {!r}... is in the comments".format(what, str(v)[:60]))
+    if ev:
+        for vid, lab in enumerate(F.all_variable_labels(), start=1):
+            # (the names of these cases never begin with a digit)
+            if not re.search(r'x{}(?![0-9]).{{0,8}}?{}'.format(vid, re.escape(_squeeze(lab))), stream):
+                raise Violation("{}: export_varnames=True but the comment lines do not map x{} to its name {!r}... "
+                                "(white space and folding aside)".format(what, vid, str(lab)[:60]))
+    # ---- LaTeX: the snippet and the document (rows as everywhere else; the header is quoted verbatim)
+    check_latex(F.to_latex(), F, 'to_latex() with long names', document=False)
+    buf = io.StringIO()
+    F.to_file(buf, fileformat='latex', export_header=eh, export_varnames=ev, extra_text=extra)
+    tex = buf.getvalue()
+    what = "to_file(fileformat='latex', export_header={}) with long text {}".format(eh, [e[:3] for e in case['long']])
+    check_latex(tex, F, what, document=True, export_header=None)
+    stex = _squeeze(tex)
+    for k, v in F.header.items():
+        if k == 'description' or ' object at 0x' in str(v):
+            continue
+        sv = _squeeze(asc(v))
+        if eh and sv not in stex:
+            raise Violation("{}: export_header=True but the header field {!r}: {!r}... is not in the document".format(
+                what, str(k)[:60], str(v)[:60]))
+        if not eh and len(sv) >= 60 and sv in stex and not any(sv in _squeeze(l) for l in F.all_variable_labels()):
+            raise Violation("{}: export_header=False but the header value {!r}... is in the document".format(what, str(v)[:60]))
+    if extra and _squeeze(extra) not in stex:
+        raise Violation("{}: the extra text is not in the document".format(what))
+    labels.append('header' if eh else 'no-header')
+    labels.append('varnames' if ev else 'no-varnames')
+    exported = any(p in ('hv', 'hk', 'desc') for p, *_ in case['long']) and eh or \
+        any(p in ('label', 'block') for p, *_ in case['long']) and ev
+    if exported and longest > 132:
+        labels.append('long-exported>132')
+    return Outcome(labels=labels, nontrivial=bool(exported) and longest > 80)
+
+
+_LONG_FORMULAS = [
+    {'cls': 'CNF', 'groups': [['block', [2], 'x_{{{}}}'], ['anon', 1]], 'rows': [[1, -2], [-3, 4], [], [2, -4, 1]]},
+    {'cls': 'OPB', 'groups': [['single', 'a=b'], ['block', [2], 'y_{{{}}}'], ['anon', 1]],
+     'rows': [['con', [[2, 1], [3, -2]], '==', 3], ['clause', [-1, 4]], ['con', [[12, -3]], '>=', 2], ['clause', []]]},
+]
+_LONG_TOOLS = [('cnfgen', 'php 3 2'.split() + ['-T', 'none'] * 45), ('cnfgen', 'op 3'.split() + ['-T', 'none'] * 25),
+               ('pbgen', ['-v'] * 70 + 'php 3 2'.split()), ('pbgen', ['--verbose'] * 30 + 'subsetcard complete 3 3 --equal'.split())]
+
+
+def enum_long(tier):
+    """every length x shape x position once, the formula class and the export switches in rotation (the text is
+    exported in three cases out of four); pairs of long texts; long command lines"""
+    i = 0
+    for length in _LONG_LENGTHS:
+        for shape in _LONG_SHAPES:
+            for position in _LONG_POSITIONS:
+                combos = [(None, None)] if tier == 'quick' else [(a, b) for a in (True, False) for b in (True, False)]
+                for eh, ev in combos:
+                    i += 1
+                    if eh is None:
+                        on = i % 4 != 0
+                        eh = on if position in ('hv', 'hk', 'desc', 'extra') else bool(i % 2)
+                        ev = on if position in ('label', 'block') else bool((i // 2) % 2)
+                    f = dict(_LONG_FORMULAS[i % 2])
+                    f.update({'long': [[position, length, shape, i % 7 + 1]], 'eh': eh, 'ev': ev})
+                    yield f
+    for length in (150, 1100):
+        for a in _LONG_POSITIONS:
+            for b in _LONG_POSITIONS:
+                i += 1
+                f = dict(_LONG_FORMULAS[i % 2])
+                f.update({'long': [[a, length, _LONG_SHAPES[i % len(_LONG_SHAPES)], 1], [b, length + 7, _LONG_SHAPES[(i + 5) % len(_LONG_SHAPES)], 2]],
+                          'eh': True, 'ev': True})
+                yield f
+    for tool, args in _LONG_TOOLS:
+        for eh, ev in ((True, False), (True, True), (False, True)):
+            yield {'tool': tool, 'args': args, 'long': [], 'eh': eh, 'ev': ev}
+            yield {'tool': tool, 'args': args, 'long': [['hv', 300, 'lines', 3]], 'eh': eh, 'ev': ev}
+
+
+_long_entry = st.tuples(st.sampled_from(_LONG_POSITIONS),
+                        st.one_of(st.sampled_from(_LONG_LENGTHS), st.integers(100, 1100), st.integers(100, 5000)),
+                        st.sampled_from(_LONG_SHAPES), st.integers(1, 50)).map(list)
+_long_entries = st.lists(_long_entry, min_size=1, max_size=3)
+_long_switch = st.sampled_from([True, True, True, False])
+_long_formula = st.sampled_from(_LONG_FORMULAS)
+
+
+@st.composite
+def strat_long(draw):
+    f = dict(draw(_long_formula))
+    f.update({'long': draw(_long_entries), 'eh': draw(_long_switch), 'ev': draw(_long_switch)})
+    return f
+
+
+_shield_cases = strat_shield()
+_long_cases = strat_long()
+_shield_pick = st.sampled_from([0, 0, 1])
+
+
+@st.composite
+def strat_shield_all(draw):
+    return draw(_long_cases if draw(_shield_pick) else _shield_cases)
+
 # ---------------------------------------------------------------------------
 
 SUBCHECKS = [
@@ -945,9 +1182,13 @@ SUBCHECKS = [
     SubCheck('anonymous_file', run_anonymous, enumerate_cases=enum_anonymous, quick=0, thorough=0, max_shards=1,
              rule="to_file on file objects whose name is not a string (tempfile.TemporaryFile, os.fdopen) or that have none (StringIO), 4 formulas x every request x header/varnames, complete; the default format must be used when nothing is requested; non-trivial: no request",
              required_labels=['temporaryfile', 'fdopen', 'stringio', 'no-request', 'request', 'name-is-int']),
-    SubCheck('comment_shield', run_shield, strategy=strat_shield, quick=600, thorough=40000,
-             rule="OPB output with header keys/values, description and variable names containing line breaks (LF, CRLF, CR, VT, FF, FS, NEL, LS) and payloads that look like constraints or spec lines; oracle: every line that is not one of the formula's constraints starts with '*', counts and constraints unchanged; LaTeX rows still carry the names; non-trivial: a line feed in a text that is exported",
-             required_labels=['line-feed-in-header', 'line-feed-in-variable-name', 'other-line-separator', 'header', 'varnames']),
+    SubCheck('comment_shield', run_shield, strategy=strat_shield_all, enumerate_cases=enum_long, quick=600, thorough=40000,
+             rule="OPB output with header keys/values, description and variable names containing line breaks (LF, CRLF, CR, VT, FF, FS, NEL, LS) and payloads that look like constraints or spec lines; oracle: every line that is not one of the formula's constraints starts with '*', counts and constraints unchanged; LaTeX rows still carry the names; non-trivial: a line feed in a text that is exported. "
+                  "LONG TEXT (1/3 of the generated cases and an enumerated grid, cases with 'long'): 1..3 texts of 100..5000 characters (lengths 100, 131, 132, 133, 200, 255, 256, 257, 500, 1023, 1024, 1025, 2000, 5000 and any in between) put into a header value, a header key, the description, the name of a variable, the label of a block of variables, the extra_text, of a CNF or an OPB formula with 4 rows; shapes: words of 2..12 characters separated by single blanks / one word without any blank / one word with blanks at and around the columns 72, 80, 132, 255, 1024, 4096 / tabs / lines ended by LF, CRLF, blank lines / lines that begin with the comment mark of another format ('c ', '* ', '*', '% ') / the marks and 'p cnf 1 1' inline / lines that are a constraint or a size declaration ('+1 x1 >= 1', '+2 ~x2 = 2 ;', '* #variable= 9 #constraint= 9'); export_header x export_varnames (each on in 3 cases of 4); plus cnfgen with 25 and 45 '-T none' and pbgen with 30 and 70 verbosity switches (command lines and headers of 200..600 characters). Rendered by to_opb(), to_file(opb), to_latex(), to_file(latex, extra_text). Enumerated: 14 lengths x 12 shapes x 6 positions (thorough: x 4 export settings), 72 pairs of positions, 24 tool cases. Oracle: independent readers as above - every OPB line is a comment starting with '*' or a well formed constraint, the constraints are the formula and the counts are true, no comment when nothing is exported; the comment lines, with their leading '*' and all white space dropped, carry every exported header key/value (non-ASCII replaced) and map every x<i> to its name - so the text may be folded over several comment lines but neither cut nor leak into other lines; an unexported long header value is not in the comments; LaTeX snippet and document: rows, names, structure, page split as in 'hand', the exported header values and the extra text are in the document (white space aside). Non-trivial: a text longer than 80 characters that is exported",
+             required_labels=['line-feed-in-header', 'line-feed-in-variable-name', 'other-line-separator', 'header', 'varnames',
+                              'long-text', 'long-exported>132', 'long>80', 'long>132', 'long>255', 'long>1024', 'no-header',
+                              'no-varnames', 'long-cnfgen', 'long-pbgen', 'CNF', 'OPB'] +
+                             ['long-' + p for p in _LONG_POSITIONS] + ['long-shape-' + sh for sh in _LONG_SHAPES]),
 ]
 
 
